@@ -17,7 +17,7 @@ def find_minimum_times_cell {K : Type} [Add K] [Sub K] [Mul K] [Div K] [Neg K] [
         (cell_out_min_times, cell_out_best_indices)) (init_time, init_index)
   (cell_out_min_times, cell_out_best_indices)
 
-/-- generated from `arim/geometry.py`, function `_distance_pairwise` (line 1377) -/
+/-- generated from `arim/geometry.py`, function `_distance_pairwise` (line 1381) -/
 def distance_pairwise_cell {K : Type} [Add K] [Sub K] [Mul K] [Div K] [Neg K]
     (o : Ops K) (x1 : Nat → K) (y1 : Nat → K) (z1 : Nat → K) (x2 : Nat → K) (y2 : Nat → K) (z2 : Nat → K) (i : Nat) (j : Nat) : K :=
   let dx := ((x1 i) - (x2 j))
